@@ -6,6 +6,7 @@ import ast
 from . import rule
 from ..frontend import AnalysisError, norm
 from ..report import Finding, RuleResult
+from ..astutil import nodes_through_helpers
 
 EB = "abstract_modeling_classes/explainable_object_base_class.py"
 MO = "abstract_modeling_classes/modeling_object.py"
@@ -1328,7 +1329,10 @@ def r_json_sib(E):
     for d in [n for n in ast.walk(eq) if isinstance(n, ast.Dict)]:
         for k, v in zip(d.keys, d.values):
             if isinstance(k, ast.Constant) and k.value == "value":
-                lossy = [c for c in ast.walk(v) if isinstance(c, ast.Call) and (
+                # through the helpers the expression calls (same-class methods, package-level functions)
+                lossy = [c for c in nodes_through_helpers(v, pm.helper_finder("ExplainableQuantity"),
+                                                          find_function=pm.package_function_finder())
+                         if isinstance(c, ast.Call) and (
                     (isinstance(c.func, ast.Name) and c.func.id in ("round", "int", "floor", "ceil", "trunc"))
                     or (isinstance(c.func, ast.Attribute) and c.func.attr in ("round", "floor", "ceil", "trunc", "rint")))]
                 if lossy:
@@ -1458,30 +1462,56 @@ def r_rule_txn(E):
             continue
         owner, fn = pm.find_method(c, "update_" + x)
         fns = {(owner, fn.name): (owner, fn)}
+
+        def writes_of(f):
+            return [n for n in ast.walk(f) if isinstance(n, ast.Assign) and any(
+                isinstance(t, ast.Attribute) and isinstance(t.value, ast.Name) and t.value.id == "self" and t.attr == x
+                for t in n.targets)]
+
+        def may_raise(m, depth=3, seen=()):
+            """the method self.<m> of class c contains a raise statement, itself or through the self-methods it calls"""
+            o2, f2 = pm.find_method(c, m)
+            if f2 is None or m in seen:
+                return False
+            if any(isinstance(n, ast.Raise) for n in ast.walk(f2)):
+                return True
+            return depth > 0 and any(
+                isinstance(n, ast.Call) and isinstance(n.func, ast.Attribute) and isinstance(n.func.value, ast.Name)
+                and n.func.value.id == "self" and may_raise(n.func.attr, depth - 1, seen + (m,)) for n in ast.walk(f2))
+
+        def raising_call(n):
+            return isinstance(n, ast.Call) and isinstance(n.func, ast.Attribute) and isinstance(n.func.value, ast.Name) \
+                and n.func.value.id == "self" and may_raise(n.func.attr)
+
         for q in set(cx.calls):
             k, m = q.split(".", 1)
             if k in pm.classes:
                 o2, f2 = pm.find_method(k, m)
-                if f2 is not None and any(isinstance(n, ast.Raise) for n in ast.walk(f2)):
+                if f2 is not None and (any(isinstance(n, ast.Raise) for n in ast.walk(f2)) or writes_of(f2)):
                     fns[(k, m)] = (k, f2)
         for (k, m), (o, f) in fns.items():
-            raises = [n for n in ast.walk(f) if isinstance(n, ast.Raise)]
-            if not raises:
+            writes = writes_of(f)
+            raises = [n for n in ast.walk(f) if isinstance(n, ast.Raise) or raising_call(n)]
+            if not raises or not writes:
                 continue
-            writes = [n for n in ast.walk(f) if isinstance(n, ast.Assign) and any(
-                isinstance(t, ast.Attribute) and isinstance(t.value, ast.Name) and t.value.id == "self" and t.attr == x
-                for t in n.targets)]
             res.instances += 1
-            # a path on which the attribute is assigned and a raise is reached afterwards
+            # a path on which the attribute is assigned and a raise — the function's own or one inside a method of the
+            # object that it calls — is reached afterwards
             from ..paths import enumerate_paths
             wset = {id(w) for w in writes}
+            rset = {id(r) for r in raises}
             early = None
-            for path in enumerate_paths(f, lambda n: isinstance(n, ast.Raise) or id(n) in wset):
-                if path.end != "raise":
-                    continue
-                done = [st for st in path.stmts[:-1] for y in ast.walk(st) if id(y) in wset]
-                if done:
-                    early = (done[0], path.stmts[-1])
+            for path in enumerate_paths(f, lambda n: id(n) in rset or id(n) in wset):
+                seen_write = None
+                for st in path.stmts:
+                    ys = list(ast.walk(st))
+                    # within one statement the call is evaluated before the assignment it feeds
+                    if seen_write is not None and any(id(y) in rset for y in ys):
+                        early = (seen_write, st)
+                        break
+                    if seen_write is None and any(id(y) in wset for y in ys):
+                        seen_write = st
+                if early:
                     break
             if early:
                 key = f"{k}.{m} assigns self.{x} before raising"
